@@ -369,6 +369,10 @@ Definition c22_okb (ttl : N) (ops : list op22) (outs : list out22) : bool :=
 
 (* ------------------------------------------------------------------ *)
 (* T codecs *)
+(* ids and the permit count are small; anything >= 100000 behaves like 100000 (there are
+   never that many subscriptions), which keeps [nat] small in the extracted code *)
+Definition small_nat (n : N) : nat := N.to_nat (N.min n 100000).
+
 Definition msg_T (m : msg) : T :=
   match m with MStatus s => status_T s | MFailed => L [I 7] end.
 Definition T_msg (t : T) : option msg :=
@@ -402,7 +406,7 @@ Definition T_out22 (t : T) : option out22 :=
   match t with
   | L [] => Some OutUnit
   | L [I 5%Z] => Some (OutSub None)
-  | L [I 4%Z; id] => option_map (fun n => OutSub (Some (N.to_nat n))) (getN id)
+  | L [I 4%Z; id] => option_map (fun n => OutSub (Some (small_nat n))) (getN id)
   | _ => option_map OutRead (T_rresult t)
   end.
 Definition T_op22 (t : T) : option op22 :=
@@ -413,8 +417,8 @@ Definition T_op22 (t : T) : option op22 :=
       | _, _, _ => None
       end
   | L [I 1%Z; tx] => option_map OSubscribe (getN tx)
-  | L [I 2%Z; id] => option_map (fun n => ORead (N.to_nat n)) (getN id)
-  | L [I 3%Z; id] => option_map (fun n => ODrop (N.to_nat n)) (getN id)
+  | L [I 2%Z; id] => option_map (fun n => ORead (small_nat n)) (getN id)
+  | L [I 3%Z; id] => option_map (fun n => ODrop (small_nat n)) (getN id)
   | L [I 4%Z; dt] => option_map OAdvance (getN dt)
   | _ => None
   end.
@@ -424,7 +428,7 @@ Definition main22 (input observed : T) : T :=
   | L [cap; ttl; L ops] =>
       match getN cap, getN ttl, mapM T_op22 ops with
       | Some cap, Some ttl, Some ops =>
-          let model := L (map out22_T (run22 (N.to_nat cap) ttl init22 ops)) in
+          let model := L (map out22_T (run22 (small_nat cap) ttl init22 ops)) in
           let pc := match observed with
                     | L obs => match mapM T_out22 obs with
                                | Some outs => c22_okb ttl ops outs
